@@ -25,7 +25,13 @@ pub enum U { A(A), B(B) }
 
 fn path_of(ctx: &Context<'_>) -> J {
     // QueryPathNode is Serialize: names as strings, indices as numbers
-    match ctx.path_node { Some(node) => serde_json::to_value(node).unwrap_or(json!([])), None => json!([]) }
+    match ctx.path_node {
+        Some(node) => match serde_json::to_value(node) {
+            Ok(J::Array(a)) => J::Array(a.into_iter().map(|x| if x.is_number() { json!(format!("#{x}")) } else { x }).collect()),
+            _ => json!([]),
+        },
+        None => json!([]),
+    }
 }
 
 fn views(ctx: &Context<'_>) -> J {
